@@ -69,7 +69,10 @@ def run(prop: str, contracts: list[Contract], lemmas: list[Lemma], z3_ms: int | 
 	for ob in eng.obligations:
 		txt = to_smt2(ob.assumptions, ob.goal)
 		texts.append(txt)
-		jobs.append((txt, ob.want, z3_ms, cvc5_ms))
+		if ob.expect == 'sat':
+			jobs.append((txt, ob.want, 1500, -1))  # covers: a quick satisfiability probe, never a proof obligation
+		else:
+			jobs.append((txt, ob.want, z3_ms, cvc5_ms))
 	t1 = time.time()
 	results = discharge_many(jobs)
 	rep.solve_seconds = time.time() - t1
